@@ -50,9 +50,9 @@ CHECKS["C19"] = dict(engine="clisim", level="exploration", design_ref="DESIGN.md
    note="Trusts: the model of destinations (written from cmd/minify/README.md; shapes it does not pin are not judged), library calls of the same tree for contents, the os/io facades covering every FS access (AST scan, exit 2 otherwise), kernel FS semantics of the scratch tmpfs.")
 
 CHECKS["C10"] = dict(engine="libsim", level="exploration", design_ref="DESIGN.md §3 C10",
-   technique="deterministic simulation with fault injection on the stream and collaborator seams: seeded stream faults (truncate, drop/duplicate/swap chunk, flip byte, reader/writer failure) applied to corpus documents through every entry point, wrappers under the seeded scheduler; crash/hang monitors; tape replay and shrinking",
-   text="PARTIAL CLAIM: only the part of C10 that stream faults and failing collaborators reach. Documents from the tree's tests, corpora and benchmarks are delivered cut short, with chunks lost, duplicated (up to 64 times, short ones thousands of times) or swapped, bytes flipped, byte ranges or whole tokens of another document of the same type spliced in, with a reader or writer that starts failing, optionally embedded in an HTML host, through Minify/Bytes/String/Reader/Writer and direct package calls with default and extreme options (all Keep* flags, precisions incl. MaxInt/MinInt). Judged: no panic, the call returns (deadlock detection, step budget, wall-clock watchdog confirmed by solitary replay), output volume bounded, Bytes/String return the caller's data unchanged on error. One case in 16 drives the exported look-ahead buffers (html/svg/xml TokenBuffer) with a seeded Peek(k)/Shift history and compares every returned token with the token list of a second lexer (reference model), k up to 340. Not claimed: arbitrary byte strings (fuzzing), memory growth, wall-time proportionality (a known quadratic-time input of the pinned HTML minifier and seeded change c10-w3a are NOT detected, see DESIGN.md §8.4).",
-   note="Trusts: Go runtime, testing/synctest, the doubles. The hang watchdog is wall-clock (60 s for cases that take milliseconds) and only reported after a solitary replay hangs again; otherwise exit 2.")
+   technique="deterministic simulation with fault injection on the stream and collaborator seams: seeded stream faults (truncate, drop/duplicate/swap/splice chunk, flip byte, reader/writer failure) applied to corpus documents through every entry point, wrappers under the seeded scheduler; a simulated clock (overlay-compiled work counters) with scaling probes for the time clause; seeded operation histories on the exported token buffers against a lexer model; crash/hang monitors; tape replay and shrinking",
+   text="PARTIAL CLAIM: only the part of C10 that stream faults and failing collaborators reach. Documents from the tree's tests, corpora and benchmarks are delivered cut short, with chunks lost, duplicated (up to 64 times, short ones thousands of times) or swapped, bytes flipped, byte ranges or whole tokens of another document of the same type spliced in, with a reader or writer that starts failing, optionally embedded in an HTML host, through Minify/Bytes/String/Reader/Writer and direct package calls with default and extreme options (all Keep* flags, precisions incl. MaxInt/MinInt). Judged: no panic, the call returns (deadlock detection, step budget, wall-clock watchdog confirmed by solitary replay), output volume bounded, Bytes/String return the caller's data unchanged on error. One case in 16 drives the exported look-ahead buffers (html/svg/xml TokenBuffer) with a seeded Peek(k)/Shift history and compares every returned token with the token list of a second lexer (reference model), k up to 340. Time proportional to the input is decided on SIMULATED time: this build has a work counter in every function entry and loop body of /repo's seven packages and of the parse module (copy/append charged per 8 elements); a document built from a unit repeated r, 4r, 16r times (plain or with numbered identifiers) must not cost more than 10x the ticks per 4x step twice in a row (quadratic work costs 16x); quick samples ~9000 probes, thorough additionally enumerates every unit of up to 4 bytes of every test-table document of up to 64 bytes (214000 probes). Two known findings (JS scope handling, HTML look-ahead / raw text are quadratic on the pinned tree) are listed in known_findings.json and mask new superlinear paths inside those two pipelines only. Not claimed: arbitrary byte strings (fuzzing), memory growth, work hidden in library calls other than copy/append.",
+   note="Trusts: Go runtime, testing/synctest, the doubles. The hang watchdog is wall-clock (60 s for cases that take milliseconds) and only reported after a solitary replay hangs again; otherwise exit 2. The work counters are inserted textually (go/parser positions) into a scratch copy; the instrumented source must parse or the build is refused (exit 2).")
 CHECKS["C11"] = dict(engine="libsim", level="exploration", design_ref="DESIGN.md §3 C11",
    technique="deterministic simulation of the host/embedded-minifier interaction through the registry seam: recording, identity, absent and failing stub sub-minifiers registered through the public API (fault injection at the collaborator), recorded call history checked against the host construction; tape replay and shrinking",
    text="PARTIAL CLAIM: the interaction between a host minifier and the registry (who is called, with what, what happens when the callee is absent or fails), not the product space of host documents. Template-built HTML/SVG/CSS hosts with known payload spans (script/style/iframe/svg/math with and without type/src/async/nonce attributes and pre/div wrappers, style= and on*=, data: URIs quoted and unquoted, SVG style text/CDATA/attribute with the default style type or one named by contentStyleType, HTML>SVG>CSS nesting); each embedded media type is independently real, absent, recording, identity or failing-on-nth-call. The recorded dispatch history must equal the prediction (type from the type attribute or documented default, exact payload, inline=1 for attributes, document order, nothing else); stub output substituted in order; real minifiers commute with standalone calls; absent => pass-through; failing => outer call returns that error; real syntax error => located inside the construct.",
